@@ -48,6 +48,9 @@ Cs(s) ==
    CASE s = "ab" -> <<"a", "b">>
      [] s = "v1" -> <<"v", "1">>
      [] s = "v2" -> <<"v", "2">>
+     [] s = "v10" -> <<"v", "1", "0">>
+     [] s = "v1x" -> <<"v", "1", "x">>
+     [] s = "v1beta" -> <<"v", "1", "b", "e", "t", "a">>
      [] s = "vv" -> <<"v", "v">>
      [] s = "a-" -> <<"a", "-">>
      [] s = "-b" -> <<"-", "b">>
@@ -59,7 +62,7 @@ Cs(s) ==
      [] s = "report." -> <<"r", "e", "p", "o", "r", "t", ".">>
      [] s = "report.pdf" -> <<"r", "e", "p", "o", "r", "t", ".", "p", "d", "f">>
      [] s = "report.txt" -> <<"r", "e", "p", "o", "r", "t", ".", "t", "x", "t">>
-DictStrings == {"ab", "v1", "v2", "vv", "a-", "-b", "a-b", "v1-b", "a-b-v", "files", "report", "report.",
+DictStrings == {"ab", "v1", "v2", "v10", "v1x", "v1beta", "vv", "a-", "-b", "a-b", "v1-b", "a-b-v", "files", "report", "report.",
                 "report.pdf", "report.txt"}
 RECURSIVE JoinChars(_)
 JoinChars(cs) == IF Len(cs) = 0 THEN "" ELSE cs[1] \o JoinChars(SubSeq(cs, 2, Len(cs)))
@@ -261,6 +264,24 @@ FailedFor(router, doc, req, obs) ==
    THEN (IF obs.k \notin {"route", "rerr"} THEN {"abnormal_" \o obs.k} ELSE {})
    ELSE Failed(doc, req, obs)
 
+(* History: "whenever a router returns a route, the route's operation is the one the      *)
+(* document declares for the request method under the route's path template" must keep   *)
+(* holding for a route the caller still holds while the same router routes further       *)
+(* requests.  held = the Method / Path / operationId of the returned route object read   *)
+(* again after all requests of the case were routed: [k |-> "route", path, m, op], or    *)
+(* [k |-> "none"] where no route had been returned.  The held route must be what it was  *)
+(* at return time and still satisfy the identity part of the soundness clause.           *)
+HeldFailed(doc, req, obs, held) ==
+   IF obs.k # "route" THEN (IF held.k = "none" THEN {} ELSE {"held_route_without_route"})
+   ELSE IF held.k # "route" THEN {"held_route_lost"}
+   ELSE (IF <<held.path, held.m, held.op>> # <<obs.path, obs.m, obs.op>> THEN {"held_route_changed"} ELSE {})
+        \cup LET cand == {t \in 1..Len(doc.templates) : TemplStr(doc.templates[t]) = held.path} IN
+             IF cand = {} THEN {"held_template_not_declared"}
+             ELSE LET tt == doc.templates[CHOOSE x \in cand : TRUE] IN
+                  (IF held.m # req.m THEN {"held_wrong_method"} ELSE {})
+                  \cup (IF ~Declared(tt, req.m) THEN {"held_method_not_declared"}
+                        ELSE IF held.op # OpId(tt, req.m) THEN {"held_wrong_operation"} ELSE {})
+
 (* the observations one could possibly expect (used to show the contract is satisfiable) *)
 RouteObs(doc, req, t, sv) ==
    LET tt == doc.templates[t] IN
@@ -316,7 +337,7 @@ MuxRoute(s, t, req) ==
                  /\ u.abs /\ Len(u.host) = Len(s.host)
                  /\ \A i \in 1..Len(s.host) : IF IsLit(s.host[i]) THEN u.host[i] = s.host[i].l ELSE u.host[i] # ""
                  /\ Len(s.port) = 0 \/ u.port = <<IF IsVar(s.port[1]) THEN s.port[1].d ELSE s.port[1].l>>
-   IN IF ~(pathOK /\ schemeOK /\ hostOK) THEN "no"
+   IN IF ~(schemeOK /\ hostOK /\ pathOK) THEN "no"      \* (path last: only a URL on the server's host is matched against Cs)
       ELSE IF Declared(t, req.m) THEN "match" ELSE "method"
 
 (* the route list: NewRouter walks the paths in matching order; a path item with its own *)
